@@ -6,9 +6,9 @@ Import ListNotations.
 Open Scope string_scope.
 Open Scope N_scope.
 
-(* status class: 0 = 401, 1 = 403, 2 = anything else (the handler answered). The harness reports 3 for "another 4xx"
+(* status class: 0 = 401, 1 = 403, 2 = anything else (the handler answered). The harness reports 3 for "another 4xx / 5xx"
    only on cases it marks loose (handlers whose validation of path or body may answer before or after the privilege
-   check): there a refusal by the model (403) and an acceptance by the model both agree with an observed other-4xx as
+   check): there a refusal by the model (403) and an acceptance by the model both agree with an observed other error status as
    long as the model does not say 401. *)
 Definition cls (st : N) : N := if st =? 401 then 0 else if st =? 403 then 1 else 2.
 
@@ -37,7 +37,15 @@ Definition kind_supported (r : route) (k : rkind) : bool :=
   | KPublic => public r
   | _ => match find_guard handler_guards (r_method r) (r_pattern r) with
          | None => false
-         | Some g => hsig_eqb (r_sig r) SigUser && list_eqb String.eqb (g_guards g) (kind_guards k)
+         | Some g => hsig_eqb (r_sig r) SigUser &&
+                     (list_eqb String.eqb (g_guards g) (kind_guards k) ||
+                      (* AuthorizeDatabase asked directly is the same decision as the one-entry statement / the write check *)
+                      match k with
+                      | KQuery [[RDb "" ReadPriv]] => list_eqb String.eqb (g_guards g) ["db:ReadPrivilege"]
+                                                      || list_eqb String.eqb (g_guards g) ["db:ReadPrivilege"; "query"]
+                      | KWrite => list_eqb String.eqb (g_guards g) ["db:WritePrivilege"]
+                      | _ => false
+                      end)
          end
   end.
 
